@@ -1,22 +1,22 @@
-\* the code as it is (first group of switches at the code's values); leaders are 1..2; the properties that hold for the code on histories whose memory databases were created in different clock ticks
+\* the code as it is (UniqueStamp / CloseLocksFirst at the values of the repaired code, the other windows as the code has them); leaders are 1..2; the properties that hold for the code, on every history (also those with memory databases created in one clock tick)
 CONSTANTS
   Leader = {1, 2}
   MaxRow = 60
   MaxObj = 6
   MaxDb = 60
   DoubleWindow = TRUE
-  CloseLocksFirst = TRUE
+  CloseLocksFirst = FALSE
   RetryFailed = FALSE
   ClosedRejects = FALSE
   AtomicWrite = FALSE
   AtomicEvict = FALSE
-  UniqueStamp = FALSE
+  UniqueStamp = TRUE
   EvictChecksRef = TRUE
   EvictChecksMem = TRUE
   CloseFlushes = TRUE
   AckFrozen = TRUE
 SPECIFICATION TraceSpec
-INVARIANTS TypeOK FlushShape FlushedOnce AckNotAhead AckedRowsDurable ClosedIsFlushed
+INVARIANTS TypeOK FlushShape FlushedOnce AckNotAhead AckedRowsDurable ClosedIsFlushed NoStuck
 PROPERTIES FrozenNeverGrows
 CONSTRAINT HighWater
 POSTCONDITION TraceAccepted
